@@ -6,10 +6,11 @@ det.install()
 import checklib  # noqa: E402
 import core      # noqa: E402
 
-SUITES = {'C17': ('inplace', 'pack'), 'C10': ('pack', 'sim'), 'C03': ('tour', 'sim', 'pack'), 'C04': ('tour', 'sim', 'pack'),
-          'C05': ('tour', 'sim', 'pack'), 'C09': ('tour', 'sim'),
-          'C01': ('tour', 'sim', 'pack'), 'C02': ('tour', 'sim'), 'C07': ('tour', 'sim'),
-          'C13': ('tour', 'sim'), 'C14': ('tour', 'sim'), 'C06': ('sched',)}
+# ('rec': traces recorded from the repository's own tests, harness/recorded.py)
+SUITES = {'C17': ('inplace', 'pack'), 'C10': ('pack', 'sim'), 'C03': ('tour', 'sim', 'pack', 'rec'),
+          'C04': ('tour', 'sim', 'pack', 'rec'), 'C05': ('tour', 'sim', 'pack', 'rec'), 'C09': ('tour', 'sim', 'rec'),
+          'C01': ('tour', 'sim', 'pack', 'rec'), 'C02': ('tour', 'sim'), 'C07': ('tour', 'sim', 'rec'),
+          'C13': ('tour', 'sim', 'rec'), 'C14': ('tour', 'sim', 'rec'), 'C06': ('sched',)}
 
 RULES = {
     'C10': 'UDF images of the core corpus (File Identifier packing witnesses of DirPack.tla, random histories with '
@@ -97,7 +98,8 @@ def run_for(pid):
                     sig = {'property': pid, 'clause': c, 'rr': h[0].get('cfg', {}).get('rr', '') if h else '',
                            'udf': h[0].get('cfg', {}).get('udf', False) if h else False}
                     ctx.violation(sig, {'clauses': clauses, 'suite': suite},
-                                  {'table': core.TAB, 'history': h,
+                                  {'table': res.get('tables', {}).get(tid, core.TAB), 'history': h,
+                                   'test': res.get('tests', {}).get(tid),
                                    'how': 'replay the history, write_fp, decode with decoders/iso9660.py'})
             for tid, ds in by_trace.items():
                 h = beh[tid]
@@ -111,9 +113,12 @@ def run_for(pid):
                         else:
                             sig2 = dict(sig, property=pid)
                             tabn = res.get('tables', {}).get(tid, core.TAB)
+                            how = 'harness/explain.py %s <history json>' % tabn
+                            if suite == 'rec':
+                                how = ('recorded from %s (harness/pytest_record.py); names: i:/j:/u: + the '
+                                       'identifier' % res.get('tests', {}).get(tid))
                             ctx.violation(sig2, {'diag': d, 'suite': suite},
-                                          {'table': tabn, 'history': h, 'step': d['step'],
-                                           'how': 'harness/explain.py %s <history json>' % tabn})
+                                          {'table': tabn, 'history': h, 'step': d['step'], 'how': how})
                     for k in all_known:
                         if checklib.sig_matches(k['signature'], dict(sig, property=k['property'])):
                             tainted = True
